@@ -276,6 +276,97 @@ def evaluate(tree_obj):
     return out
 
 
+EVAL_ATTRS = ["packages", "classes", "attrs", "parent"]
+EVAL_TYPES = ["Model", "Package", "Class", "Attr"]
+EVAL_FUEL = 100000
+_HEAP = {}
+
+
+def sample_heap():
+    """the sample model as the Lean evaluation model sees it (`Rrel.Heap`): objects numbered in containment
+    preorder; attribute values as object lists (`parent` is an ordinary attribute of contained objects too —
+    `~parent` navigates it); `name` holds a string and is left out: a consuming / fixed-name step over it
+    finds nothing named in either world, a `~name` step yields a string (not modelled, such trees are not
+    compared).  Returns the request part and the label of every object."""
+    if not _HEAP:
+        use_repo()
+        from textx import textx_isinstance
+
+        objs_q = sample()
+        m = objs_q[0]
+        mm = m._tx_metamodel
+        objs = []
+
+        def walk(o):
+            objs.append(o)
+            for a in ("packages", "classes", "attrs"):
+                for c in getattr(o, a, None) or []:
+                    walk(c)
+
+        walk(m)
+        num = {id(o): i for i, o in enumerate(objs)}
+
+        def label(o):
+            names = []
+            while o is not None and hasattr(o, "parent"):
+                names.append(f"{type(o).__name__}:{getattr(o, 'name', '?')}")
+                o = o.parent
+            return "/".join(reversed(names)) or "root"
+
+        def lst(v):
+            if v is None:
+                return []
+            return [num[id(x)] for x in (v if isinstance(v, list) else [v])]
+
+        _HEAP["req"] = {
+            "parent": [num[id(o.parent)] if hasattr(o, "parent") else None for o in objs],
+            "name": [o.name if hasattr(o, "name") else None for o in objs],
+            "conf": [[t for t in EVAL_TYPES if textx_isinstance(o, mm[t])] for o in objs],
+            "attrs": [[[a, lst(getattr(o, a))] for a in EVAL_ATTRS if hasattr(o, a) and lst(getattr(o, a))] for o in objs],
+            "extra": [],
+            "queries": [{"o": num[id(o)], "ns": [x for x in name.split(".") if x]} for o in objs_q for name in LOOKUPS],
+            "fuel": EVAL_FUEL,
+        }
+        _HEAP["labels"] = [label(o) for o in objs]
+    return _HEAP["req"], _HEAP["labels"]
+
+
+def eval_comparable(tree):
+    """the evaluation model covers the tree: no `~name` step (navigation into a primitive attribute)"""
+    return not any(e[0] == "nav" and e[1] == "name" and not e[2] and e[3] is None for e in elems_of(tree["seq"]))
+
+
+def answers_as_labels(answers, labels):
+    out = []
+    for a in answers:
+        if a == "none":
+            out.append(None)
+        elif isinstance(a, str):
+            out.append(a)
+        elif "obj" in a:
+            out.append(labels[a["obj"]])
+        else:
+            out.append(["proxy"] + [labels[x] for x in a["proxy"]])
+    return out
+
+
+def cmp_eval(what, impl_eval, model_eval, labels):
+    """`rrel.find` on the sample model against `evalExpr` (`toCore` + `Rrel.find`); a query the implementation
+    answered with an exception (`parent(T)` for a class the meta-model does not have: KeyError) is outside the model"""
+    if model_eval is None:
+        return f"evaluation of {what}: the model has no core for an expression the implementation evaluates"
+    got = answers_as_labels(model_eval, labels)
+    if len(got) != len(impl_eval):
+        return f"evaluation of {what}: {len(impl_eval)} answers of the implementation, {len(got)} of the model"
+    for i, (a, b) in enumerate(zip(impl_eval, got)):
+        if isinstance(a, str) and a.startswith("exc:"):
+            continue
+        if a != b:
+            return (f"evaluation of {what}: query {i} (start {i // len(LOOKUPS)}, name {LOOKUPS[i % len(LOOKUPS)]!r}): "
+                    f"implementation {a!r}, model {b!r}")
+    return None
+
+
 def parse_obs(R, s):
     try:
         t = R.parse(s)
@@ -540,6 +631,10 @@ class Prop(Check):
     THEOREMS = [
         "RrelSyntax.C12_roundtrip",
         "RrelSyntax.C12_eval",
+        "RrelSyntax.C12_eval_find",
+        "RrelSyntax.C12_parsed_eval_partial",
+        "RrelSyntax.C12_core",
+        "RrelSyntax.C12_parsed_core",
         "RrelSyntax.C12_roundtrip_seq",
         "RrelSyntax.C12_parse_range",
         "RrelSyntax.C12_parsed_partial",
@@ -564,7 +659,11 @@ class Prop(Check):
     MODELLED = ("hand-modelled: rrel.py __repr__ methods (printElem…printExpr, _quote_fixed_name), the Arpeggio grammar "
                 "rrel_standalone with whitespace skipping, the terminals' regular expressions (first match in backtracking order) "
                 "and RRELVisitor (RrelSyntax.parse); tie X: exact printed string and parse result (tree / failure) of every "
-                "string; character classes \\w \\d of non-ASCII characters are taken from Python's re per request; not exhibited: "
+                "string; evaluation: RrelSyntax.evalExpr (object tree -> core calculus RrelSyntax.toCore -> Rrel.find of C11, "
+                "flags m/p) against rrel.find on the sample model for 3 start objects x 8 names, for the expression and for the "
+                "re-parsed one (trees with a '~name' step — navigation into a string attribute — and queries that raise, "
+                "parent(T) with T not in the meta-model, are not compared); "
+                "character classes \\w \\d of non-ASCII characters are taken from Python's re per request; not exhibited: "
                 "Arpeggio's error messages / positions, memoization, Python recursion limits")
     ASSUMPTIONS = [
         "Python's re returns the first match in backtracking priority order for the four terminal patterns (checked by correspondence)",
@@ -701,9 +800,31 @@ class Prop(Check):
             except Exception:  # noqa: BLE001
                 return None
             w, d = nonascii_classes(tree_strings(tree))
-            return {"op": "roundtrip", "tree": wire, "word": w, "digit": d}
+            return self._with_ev({"op": "roundtrip", "tree": wire, "word": w, "digit": d}, obs)
         w, d = nonascii_classes([case["s"]])
-        return {"op": "parse", "s": cps(case["s"]), "word": w, "digit": d}
+        return self._with_ev({"op": "parse", "s": cps(case["s"]), "word": w, "digit": d}, obs)
+
+    @staticmethod
+    def _with_ev(req, obs):
+        """the implementation evaluated the expression on the sample model: the model evaluates it too
+        (`evalExpr`: object tree -> core calculus -> `Rrel.find`, with the flags)"""
+        if "eval" in obs:
+            req["ev"] = sample_heap()[0]
+        return req
+
+    def _cmp_evals(self, case, obs, out):
+        if "eval" not in obs:
+            return None
+        tree = self.subject(case, obs)
+        if tree is None or not eval_comparable(tree):
+            return None
+        if "eval" not in out:
+            return "the model did not evaluate the expression"
+        labels = sample_heap()[1]
+        d = cmp_eval("the expression", obs["eval"], out["eval"], labels)
+        if d is None and "eval2" in obs:
+            d = cmp_eval("the re-parsed expression", obs["eval2"], out["eval2"], labels)
+        return d
 
     def compare(self, case, obs, out):
         if "err" in out:
@@ -719,7 +840,7 @@ class Prop(Check):
             want_wf = wf_tree(case["tree"], printable)
             if bool(out["wf"]) != want_wf:
                 return f"well-formedness: model {out['wf']}, harness {want_wf}"
-            return self._cmp_parse(obs["reparse"], out["parsed"], mp)
+            return self._cmp_parse(obs["reparse"], out["parsed"], mp) or self._cmp_evals(case, obs, out)
         # text
         got = obs["parse"]
         if "ok" in out:
@@ -730,7 +851,7 @@ class Prop(Check):
                 mp = "".join(chr(c) for c in out["printed"])
                 if mp != obs["print"]["ok"]:
                     return f"printed form of the parsed text: implementation {obs['print']['ok']!r}, model {mp!r}"
-                return self._cmp_parse(obs["reparse"], out["reparsed"], mp)
+                return self._cmp_parse(obs["reparse"], out["reparsed"], mp) or self._cmp_evals(case, obs, out)
             return None
         return self._cmp_parse(got, None, case["s"])
 
@@ -885,7 +1006,16 @@ class Prop(Check):
                 maxsize = max(maxsize, size_of(t["seq"]))
                 flags[t["flags"]] = flags.get(t["flags"], 0) + 1
                 fixed += 1 if fixed_names(t["seq"]) else 0
+        ev_cmp = ev_resolving = 0
+        for c, o, m in zip(cases, obs, model_outs or []):
+            if isinstance(o, dict) and "eval" in o and isinstance(m, dict) and m.get("eval") is not None:
+                t = self.subject(c, o)
+                if t is not None and eval_comparable(t):
+                    ev_cmp += 1
+                    ev_resolving += 1 if any(a not in ("none", "postponed", "fuel") for a in m["eval"]) else 0
         return {
+            "evaluations_compared_with_rrel_find": ev_cmp,
+            "of_these_resolving_some_query": ev_resolving,
             "distribution": dist,
             "well_formed_subjects": wf,
             "texts_accepted": parsed_ok,
